@@ -95,7 +95,8 @@ def _run_chunk(binary, wd, idx, scenarios, timeout):
             msg = p.stderr
             m = re.search(r"(panic: .*|fatal error: .*)", msg)
             f.write(json.dumps({"ev": "panic", "tr": last_start["tr"], "seq": 10 ** 9, "msg": m.group(1) if m else "crash",
-                                "lib": "vbauerster/mpb" in msg, "stack": msg[-3000:]}) + "\n")
+                                "lib": "vbauerster/mpb" in msg, "closedsend": "send on closed channel" in msg,
+                                "stack": msg[-3000:]}) + "\n")
             f.write(json.dumps({"ev": "finish", "tr": last_start["tr"], "idx": last_start["idx"], "fatal": "crash"}) + "\n")
         start = last_start["idx"] + 1
     return outp, crashes
